@@ -14,7 +14,11 @@ def reqOf (l : Line) : _root_.C06.Req :=
     idScopes := if has l "r.idscopes" then list l "r.idscopes" else list l "r.scopes",
     atScopes := if has l "r.atscopes" then list l "r.atscopes" else list l "r.scopes",
     storageFillsID := bool l "r.fillsid", storageFillsAT := bool l "r.fillsat",
-    curKey := if has l "k.cur" then int l "k.cur" else -1, curAlg := str l "k.alg" }
+    curKey := if has l "k.cur" then int l "k.cur" else -1, curAlg := str l "k.alg",
+    alsoCur := (list l "k.also").filterMap fun e =>
+      match e.splitOn "/" with
+      | [no, alg] => no.toInt?.map (·, alg)
+      | _ => none }
 
 def obsOf (l : Line) : _root_.C06.Obs :=
   { flow := str l "flow", hasIDToken := bool l "o.idtoken", rpVerifies := bool l "o.rpverifies", idClaims := parseClaims l "c.", amr := list l "o.amr",
